@@ -91,7 +91,8 @@ func (x *XmlNode) Next(r node.ListRequest) (node.Node, []val.Value, error) {
 					break
 				}
 				v, err := xmlLeafValue(kmeta.Type(), string(n.Nodes[ndx].Content), n.Nodes[ndx].ContentTrim())
-				if err != nil || v == nil || k.String() != v.String() {
+				if err != nil || v == nil || k == nil || k.String() != v.String() {
+					// k is nil for a key given only in part
 					break
 				}
 				isLastKey := i == (len(r.Key) - 1)
